@@ -37,11 +37,18 @@ func init() {
 	})
 	op("qv2ext", func(a []string) string {
 		var l []*object.QuadkeyAndVerticalID
+		badElem := false // a zoom of an ELEMENT outside its range is an invalid zoom too: the error comes with an empty list
 		for _, it := range split(a[0]) {
 			f := strings.Split(it, ":")
 			l = append(l, object.NewQuadkeyAndVerticalID(atoi(f[0]), atoi(f[1]), atoi(f[2]), atoi(f[3]), 0, 0))
+			if atoi(f[0]) < 1 || atoi(f[0]) > 31 || atoi(f[2]) < 0 || atoi(f[2]) > 35 {
+				badElem = true
+			}
 		}
 		r, err := transform.ConvertQuadkeysAndVerticalIDsToExtendedSpatialIDs(l, atoi(a[1]), atoi(a[2]))
+		if err != nil && len(r) > 0 && badElem {
+			return "ERR-NONEMPTY-ON-ZOOM-ERROR"
+		}
 		return setOrErrZ(r, err, 0, 35, atoi(a[1]), atoi(a[2]))
 	})
 	// qv2sp: the spatial-ID variant (one output zoom for both axes)
